@@ -1310,3 +1310,86 @@ fn c15_verify_last() {
         l += 1;
     }
 }
+
+// ------------------------------------------------------------------------------------------
+// C15: white space and comments between tokens (with the backslash continuation rule)
+// ------------------------------------------------------------------------------------------
+/// Independent reading of the manual's rule over bytes: white space is skipped; `#` starts a
+/// comment that runs to the end of the line, and a line ending that is *immediately* preceded by
+/// an odd number of backslashes (a `\r` directly before the `\n` not counting) continues the
+/// comment on the next line.  Returns how many bytes remain.
+fn space_spec(b: &[u8]) -> usize {
+    let mut i = 0;
+    loop {
+        while i < b.len() && matches!(b[i], b' ' | b'\t' | b'\n' | b'\r' | 0x0b | 0x0c) {
+            i += 1;
+        }
+        if i >= b.len() || b[i] != b'#' {
+            return b.len() - i;
+        }
+        i += 1;
+        loop {
+            let start = i;
+            while i < b.len() && b[i] != b'\n' {
+                i += 1;
+            }
+            let mut end = i;
+            if i < b.len() {
+                i += 1; // the newline itself
+            }
+            if end > start && b[end - 1] == b'\r' {
+                end -= 1;
+            }
+            let mut k = 0;
+            while end - k > start && b[end - k - 1] == b'\\' {
+                k += 1;
+            }
+            if k % 2 == 0 || i >= b.len() {
+                break;
+            }
+        }
+    }
+}
+/// `Lexer::space` on `"#" + body + "x\n#y\nz"` for every comment body of length <= 3 over the
+/// alphabet { `\`, space, newline, carriage return, `a` } (one harness per first character) and
+/// the empty body: the real lexer skips exactly what the rule says.  Inputs are string
+/// literals generated by tools (string code on symbolic bytes, or on strings assembled at
+/// verification time, does not finish).
+fn space_cases(cases: &[&str]) {
+    let mut k = 0;
+    while k < cases.len() {
+        let s = cases[k];
+        assert!(crate::load::lex::Lexer::verif_space(s) == space_spec(s.as_bytes()));
+        k += 1;
+    }
+}
+#[kani::proof]
+#[kani::unwind(14)]
+fn c15_space_empty() {
+    space_cases(&["#x\n#y\nz", " x", "x # y", ""]);
+}
+#[kani::proof]
+#[kani::unwind(34)]
+fn c15_space_bs() {
+    space_cases(&["#\\x\n#y\nz", "#\\\\x\n#y\nz", "#\\ x\n#y\nz", "#\\\nx\n#y\nz", "#\\\rx\n#y\nz", "#\\ax\n#y\nz", "#\\\\\\x\n#y\nz", "#\\\\ x\n#y\nz", "#\\\\\nx\n#y\nz", "#\\\\\rx\n#y\nz", "#\\\\ax\n#y\nz", "#\\ \\x\n#y\nz", "#\\  x\n#y\nz", "#\\ \nx\n#y\nz", "#\\ \rx\n#y\nz", "#\\ ax\n#y\nz", "#\\\n\\x\n#y\nz", "#\\\n x\n#y\nz", "#\\\n\nx\n#y\nz", "#\\\n\rx\n#y\nz", "#\\\nax\n#y\nz", "#\\\r\\x\n#y\nz", "#\\\r x\n#y\nz", "#\\\r\nx\n#y\nz", "#\\\r\rx\n#y\nz", "#\\\rax\n#y\nz", "#\\a\\x\n#y\nz", "#\\a x\n#y\nz", "#\\a\nx\n#y\nz", "#\\a\rx\n#y\nz", "#\\aax\n#y\nz"]);
+}
+#[kani::proof]
+#[kani::unwind(34)]
+fn c15_space_sp() {
+    space_cases(&["# x\n#y\nz", "# \\x\n#y\nz", "#  x\n#y\nz", "# \nx\n#y\nz", "# \rx\n#y\nz", "# ax\n#y\nz", "# \\\\x\n#y\nz", "# \\ x\n#y\nz", "# \\\nx\n#y\nz", "# \\\rx\n#y\nz", "# \\ax\n#y\nz", "#  \\x\n#y\nz", "#   x\n#y\nz", "#  \nx\n#y\nz", "#  \rx\n#y\nz", "#  ax\n#y\nz", "# \n\\x\n#y\nz", "# \n x\n#y\nz", "# \n\nx\n#y\nz", "# \n\rx\n#y\nz", "# \nax\n#y\nz", "# \r\\x\n#y\nz", "# \r x\n#y\nz", "# \r\nx\n#y\nz", "# \r\rx\n#y\nz", "# \rax\n#y\nz", "# a\\x\n#y\nz", "# a x\n#y\nz", "# a\nx\n#y\nz", "# a\rx\n#y\nz", "# aax\n#y\nz"]);
+}
+#[kani::proof]
+#[kani::unwind(34)]
+fn c15_space_nl() {
+    space_cases(&["#\nx\n#y\nz", "#\n\\x\n#y\nz", "#\n x\n#y\nz", "#\n\nx\n#y\nz", "#\n\rx\n#y\nz", "#\nax\n#y\nz", "#\n\\\\x\n#y\nz", "#\n\\ x\n#y\nz", "#\n\\\nx\n#y\nz", "#\n\\\rx\n#y\nz", "#\n\\ax\n#y\nz", "#\n \\x\n#y\nz", "#\n  x\n#y\nz", "#\n \nx\n#y\nz", "#\n \rx\n#y\nz", "#\n ax\n#y\nz", "#\n\n\\x\n#y\nz", "#\n\n x\n#y\nz", "#\n\n\nx\n#y\nz", "#\n\n\rx\n#y\nz", "#\n\nax\n#y\nz", "#\n\r\\x\n#y\nz", "#\n\r x\n#y\nz", "#\n\r\nx\n#y\nz", "#\n\r\rx\n#y\nz", "#\n\rax\n#y\nz", "#\na\\x\n#y\nz", "#\na x\n#y\nz", "#\na\nx\n#y\nz", "#\na\rx\n#y\nz", "#\naax\n#y\nz"]);
+}
+#[kani::proof]
+#[kani::unwind(34)]
+fn c15_space_cr() {
+    space_cases(&["#\rx\n#y\nz", "#\r\\x\n#y\nz", "#\r x\n#y\nz", "#\r\nx\n#y\nz", "#\r\rx\n#y\nz", "#\rax\n#y\nz", "#\r\\\\x\n#y\nz", "#\r\\ x\n#y\nz", "#\r\\\nx\n#y\nz", "#\r\\\rx\n#y\nz", "#\r\\ax\n#y\nz", "#\r \\x\n#y\nz", "#\r  x\n#y\nz", "#\r \nx\n#y\nz", "#\r \rx\n#y\nz", "#\r ax\n#y\nz", "#\r\n\\x\n#y\nz", "#\r\n x\n#y\nz", "#\r\n\nx\n#y\nz", "#\r\n\rx\n#y\nz", "#\r\nax\n#y\nz", "#\r\r\\x\n#y\nz", "#\r\r x\n#y\nz", "#\r\r\nx\n#y\nz", "#\r\r\rx\n#y\nz", "#\r\rax\n#y\nz", "#\ra\\x\n#y\nz", "#\ra x\n#y\nz", "#\ra\nx\n#y\nz", "#\ra\rx\n#y\nz", "#\raax\n#y\nz"]);
+}
+#[kani::proof]
+#[kani::unwind(34)]
+fn c15_space_a() {
+    space_cases(&["#ax\n#y\nz", "#a\\x\n#y\nz", "#a x\n#y\nz", "#a\nx\n#y\nz", "#a\rx\n#y\nz", "#aax\n#y\nz", "#a\\\\x\n#y\nz", "#a\\ x\n#y\nz", "#a\\\nx\n#y\nz", "#a\\\rx\n#y\nz", "#a\\ax\n#y\nz", "#a \\x\n#y\nz", "#a  x\n#y\nz", "#a \nx\n#y\nz", "#a \rx\n#y\nz", "#a ax\n#y\nz", "#a\n\\x\n#y\nz", "#a\n x\n#y\nz", "#a\n\nx\n#y\nz", "#a\n\rx\n#y\nz", "#a\nax\n#y\nz", "#a\r\\x\n#y\nz", "#a\r x\n#y\nz", "#a\r\nx\n#y\nz", "#a\r\rx\n#y\nz", "#a\rax\n#y\nz", "#aa\\x\n#y\nz", "#aa x\n#y\nz", "#aa\nx\n#y\nz", "#aa\rx\n#y\nz", "#aaax\n#y\nz"]);
+}
